@@ -57,7 +57,11 @@ func verifClientState(stopped bool) *verifClientEnv {
 	} else {
 		c.err = errClientStopped
 	}
-	n := nondetChoice("npending", 3)
+	maxp := 3
+	if thorough() {
+		maxp = 4
+	}
+	n := nondetChoice("npending", maxp)
 	for i := 0; i < n; i++ {
 		k := nondetInt64("pending-id")
 		assume(k >= 1 && k < c.nextID)
@@ -150,7 +154,11 @@ func Harness_C04_step() {
 		}
 		vassert(len(env.ch.sent) == 0, "delivering a reply transmits nothing")
 	case 1: // Batch (Call and Notify are the one-element cases): 1..3 specs
-		n := 1 + nondetChoice("n", 3)
+		maxs := 3
+		if thorough() {
+			maxs = 4
+		}
+		n := 1 + nondetChoice("n", maxs)
 		var specs []Spec
 		for i := 0; i < n; i++ {
 			specs = append(specs, Spec{Method: "m", Notify: nondetBool("notify")})
